@@ -2,7 +2,7 @@
    decisions and the arithmetic of the bounds; (3) the keep-alive invariant over the abstract timed semantics. *)
 From Coq Require Import List ZArith Lia Bool.
 Import ListNotations.
-From V Require Import Base.U32 Base.Bytes Base.Iface Gen.ProtoConsts Gen.C04Consts C04.Model C04.Proofs C05.Model.
+From V Require Import Base.U32 Base.Bytes Base.Iface Gen.ProtoConsts Gen.C04Consts C04.Keepalive C04.Model C04.Proofs C05.Model.
 Local Open Scope Z_scope.
 
 Record c05_facts : Prop := {
@@ -14,20 +14,20 @@ Record c05_facts : Prop := {
 Lemma c05_ok : c05_facts. Proof. constructor; vm_compute; repeat split; congruence. Qed.
 
 (* ---------- (1) the automaton uses exactly these decisions ---------- *)
+(* the ghost bookkeeping of the keep-alive abstraction done by timer1_cb (no influence on any other field) *)
+Definition t1_ghost (s : st) : st :=
+  if 0 <? actto s
+  then k_event (Tick (uptime s) (match srpc s with Some p => len (oq p) <? QUEUE_SIZE | None => false end)) s else s.
 Lemma timer1_cb_decide s :
   timer1_cb s =
   if is_registered s then
     match t1_decide (uptime s) (lastsent s) (lastresp s) (actto s) with
-    | T1_reconnect => devconn_reconnect s
-    | T1_ping => async_call (api_call A_PING) (zeros (api_size A_PING)) s
-    | T1_none => s
+    | T1_reconnect => devconn_reconnect (t1_ghost s)
+    | T1_ping => async_call (api_call A_PING) (zeros (api_size A_PING)) (t1_ghost s)
+    | T1_none => t1_ghost s
     end
   else s.
-Proof.
-  unfold timer1_cb, t1_decide. destruct (is_registered s); cbn [andb]; [|reflexivity].
-  destruct (0 <? actto s); [|reflexivity].
-  destruct (_ <=? _); [reflexivity|]. destruct (_ || _); reflexivity.
-Qed.
+Proof. reflexivity. Qed.
 Lemma watchdog_cb_decide s :
   watchdog_cb s =
   match wd_decide (uptime s) (lastresp s) (actto s) (nextwd s) with
@@ -130,12 +130,14 @@ Qed.
    restarts the Wi-Fi/TCP connect sequence; a watchdog tick after more than 60 silent seconds restarts the device *)
 Theorem silent_reconnect_thm s : is_registered s = true -> 0 < actto s < 4294966000 -> 0 <= lastresp s -> lastresp s <= uptime s ->
   actto s + PING_RECONNECT_PLUS <= uptime s - lastresp s ->
-  callback T_timer1 s = devconn_reconnect s /\
+  callback T_timer1 s = devconn_reconnect (t1_ghost s) /\
   In (mk O_DISCONNECT [now s] []) (outs (callback T_timer1 s)) /\ In (mk O_WIFISTART [now s] []) (outs (callback T_timer1 s)).
 Proof.
   intros HR HT Hl Hu Hs. cbn [callback]. rewrite timer1_cb_decide, HR.
   assert (Hup : uptime s < 4294967296) by (unfold uptime; apply u32_range).
-  rewrite t1_decide_silent by lia. split; [reflexivity|]. apply devconn_reconnect_outputs.
+  rewrite t1_decide_silent by lia. split; [reflexivity|].
+  assert (N : now (t1_ghost s) = now s) by (unfold t1_ghost; destruct (0 <? actto s); reflexivity).
+  rewrite <- N. apply devconn_reconnect_outputs.
 Qed.
 Theorem silent_restart_thm s : 0 <= lastresp s -> lastresp s <= uptime s -> WATCHDOG_TIMEOUT_S < uptime s - lastresp s ->
   callback T_wd s = restart s /\ In (mk O_RESTART [now s] []) (outs (callback T_wd s)) /\ halted (callback T_wd s) = true.
